@@ -2,7 +2,11 @@
    (confirmations are accepted only from members included in the attempt; waitUntilAllDone
    reads doneSigners under the mutex, so the listener's insertion and the waiter's check are
    the atomic steps).  Seats, operators, messages and signatures are N identifiers; member
-   indexes are the Go uint8 values. *)
+   indexes are the Go uint8 values.
+   One signingDoneCheck is used for a whole signing: listen() is called once per attempt on the
+   SAME object (signing retry loop).  [sdc] / [do_listen] / [do_msg] model the object's fields
+   across attempts as the code is written (listen() replaces doneSigners by a new map); a case
+   is a history of attempts on one object. *)
 From Coq Require Import ZArith NArith List Bool.
 From KV Require Import Common.Verdict.
 Import ListNotations.
@@ -121,16 +125,43 @@ Definition out_ok (p : params) (h : list dmsg) (o : outcome) : bool :=
   | Panic => false
   end.
 
+(* ---------- the long-lived object ---------- *)
+(* the fields of signingDoneCheck that change: what the current listener goroutine validates
+   against (the arguments of the last listen()), and doneSigners *)
+Record sdc := { d_params : params; d_store : store }.
+
+(* listen(): expectedSignersCount = len(members); doneSigners = make(map) *)
+Definition do_listen (p : params) (d : sdc) : sdc := {| d_params := p; d_store := [] |}.
+(* one message through the current listener goroutine *)
+Definition do_msg (d : sdc) (m : dmsg) : sdc :=
+  {| d_params := d_params d; d_store := accept (d_params d) (d_store d) m |}.
+Definition do_msgs (d : sdc) (h : list dmsg) : sdc := fold_left do_msg h d.
+
+(* a history of attempts (listen arguments, messages delivered during the attempt) run on one
+   object starting in state d: the object after the last attempt *)
+Definition run_attempts (d : sdc) (l : list (params * list dmsg)) : sdc :=
+  fold_left (fun d ph => do_msgs (do_listen (fst ph) d) (snd ph)) l d.
+(* doneSigners at the end of each attempt *)
+Fixpoint stores_of (d : sdc) (l : list (params * list dmsg)) : list store :=
+  match l with
+  | [] => []
+  | (p, h) :: t => let d' := do_msgs (do_listen p d) h in d_store d' :: stores_of d' t
+  end.
+
 (* ---------- cases ---------- *)
-Record case := {
+(* one attempt of the history: listen(p), phase 1, waitUntilAllDone with phase 2 arriving *)
+Record attempt := {
   c_params : params;
-  c_phase1 : list dmsg;    (* processed before waitUntilAllDone started *)
-  c_phase2 : list dmsg;    (* arriving while it runs *)
+  c_phase1 : list dmsg;    (* handed to the listener and processed before waitUntilAllDone started *)
+  c_phase2 : list dmsg;    (* handed to the listener while it runs *)
   c_signers1 : list N;     (* keys of doneSigners after phase 1, ascending *)
   c_out : outcome;         (* what waitUntilAllDone returned; the context is cancelled only after
                               every message was processed and >= 3 ticks found no result *)
-  c_signers : list N       (* keys of doneSigners at the end, ascending *)
+  c_signers : list N       (* keys of doneSigners when waitUntilAllDone returned, ascending *)
 }.
+
+(* a history of attempts on ONE signingDoneCheck (one MembershipValidator: same p_ops) *)
+Record case := { c_attempts : list attempt }.
 
 Fixpoint insert_sorted (x : N) (l : list N) : list N :=
   match l with
@@ -156,31 +187,65 @@ Definition outcome_eqb (a b : outcome) : bool :=
    final tick would still say NotYet *)
 Definition prefixes {A} (l : list A) : list (list A) := map (fun k => firstn k l) (seq 0 (S (length l))).
 
-Definition agree (c : case) : bool :=
-  let p := c_params c in
-  listN_eqb (sortN (map fst (listen p (c_phase1 c)))) (c_signers1 c)
-  && match c_out c with
+Definition keys (st : store) : list N := sortN (map fst st).
+
+(* the observations of one attempt against the stores [st1 pre] the model has after phase 1
+   and a prefix pre of phase 2 *)
+Definition agree_with (a : attempt) (st : list dmsg -> store) : bool :=
+  let p := c_params a in
+  listN_eqb (keys (st [])) (c_signers1 a)
+  && match c_out a with
      | TimedOut =>
-         outcome_eqb (tick p (listen p (c_phase1 c ++ c_phase2 c))) NotYet
-         && listN_eqb (sortN (map fst (listen p (c_phase1 c ++ c_phase2 c)))) (c_signers c)
+         outcome_eqb (tick p (st (c_phase2 a))) NotYet
+         && listN_eqb (keys (st (c_phase2 a))) (c_signers a)
      | NotYet => false
      | o =>
-         existsb (fun pre =>
-                    outcome_eqb (tick p (listen p (c_phase1 c ++ pre))) o
-                    && listN_eqb (sortN (map fst (listen p (c_phase1 c ++ pre)))) (c_signers c))
-                 (prefixes (c_phase2 c))
+         existsb (fun pre => outcome_eqb (tick p (st pre)) o && listN_eqb (keys (st pre)) (c_signers a))
+                 (prefixes (c_phase2 a))
      end.
 
-Definition spec_ok (c : case) : bool := out_ok (c_params c) (c_phase1 c ++ c_phase2 c) (c_out c).
+(* single attempt on a fresh state *)
+Definition agree1 (a : attempt) : bool :=
+  agree_with a (fun pre => listen (c_params a) (c_phase1 a ++ pre)).
+
+(* the whole history on the object model: every attempt is compared with what the ONE object
+   holds at that point (Proofs: = forallb agree1, whatever the initial state) *)
+Fixpoint agree_from (d : sdc) (l : list attempt) : bool :=
+  match l with
+  | [] => true
+  | a :: t =>
+      let d1 := do_msgs (do_listen (c_params a) d) (c_phase1 a) in
+      agree_with a (fun pre => d_store (do_msgs d1 pre))
+      && agree_from (do_msgs d1 (c_phase2 a)) t
+  end.
+
+Definition no_params : params :=
+  {| p_ops := []; p_message := 0; p_attempt := 0; p_timeout := 0; p_members := [] |}.
+(* newSigningDoneCheck: doneSigners is nil *)
+Definition new_sdc : sdc := {| d_params := no_params; d_store := [] |}.
+
+Definition agree (c : case) : bool := agree_from new_sdc (c_attempts c).
+
+(* the property, per attempt, on the implementation's outcome and the messages handed to the
+   listener during THAT attempt only *)
+Definition spec_ok1 (a : attempt) : bool := out_ok (c_params a) (c_phase1 a ++ c_phase2 a) (c_out a).
+Definition spec_ok (c : case) : bool := forallb spec_ok1 (c_attempts c).
 
 Definition well_formed (c : case) : bool :=
-  forallb (fun o => negb (N.eqb o 0)) (p_ops (c_params c)).
+  match c_attempts c with
+  | [] => false
+  | a0 :: _ =>
+      forallb (fun o => negb (N.eqb o 0)) (p_ops (c_params a0))
+      && forallb (fun a => listN_eqb (p_ops (c_params a)) (p_ops (c_params a0))) (c_attempts c)
+  end.
 
 Definition judge (c : case) : verdict :=
   if negb (well_formed c) then BadCase else decide (spec_ok c) (agree c).
 
-(* what --replay prints: the model's tick after phase 1 and after everything, and the keys *)
-Definition explain (c : case) : outcome * outcome * list N :=
-  let p := c_params c in
-  (tick p (listen p (c_phase1 c)), tick p (listen p (c_phase1 c ++ c_phase2 c)),
-   sortN (map fst (listen p (c_phase1 c ++ c_phase2 c)))).
+(* what --replay prints, per attempt: the model's tick after phase 1 and after everything, and
+   the keys *)
+Definition explain (c : case) : list (outcome * outcome * list N) :=
+  map (fun a => let p := c_params a in
+                (tick p (listen p (c_phase1 a)), tick p (listen p (c_phase1 a ++ c_phase2 a)),
+                 keys (listen p (c_phase1 a ++ c_phase2 a))))
+      (c_attempts c).
